@@ -143,6 +143,10 @@ def check_pair(ctx, a, b):
     # ordering of library-produced names (lists of library-produced components)
     la = [Component.from_bytes(rc.comp_parts(c)[1], rc.comp_parts(c)[0]) for c in a]
     lb = [Component.from_bytes(rc.comp_parts(c)[1], rc.comp_parts(c)[0]) for c in b]
+    if [bytes(x) for x in la] != [bytes(x) for x in a] or [bytes(x) for x in lb] != [bytes(x) for x in b]:
+        ctx.report('component-from-bytes', 'Component.from_bytes does not produce the exact minimal encoding',
+                   {'a': [c.hex() for c in a], 'got': [bytes(c).hex() for c in la][:4]})
+        return
     ka, kb = rc.name_canonical_key(a), rc.name_canonical_key(b)
     for op, name_ in ((lambda x, y: x < y, '<'), (lambda x, y: x == y, '=='), (lambda x, y: x <= y, '<=')):
         if op(la, lb) != op(ka, kb):
